@@ -6,24 +6,26 @@
 set -u
 prop="$1"; shift
 cd "$VERIF_ROOT"
-B=.build/tree; mkdir -p $B bin
+lp=$(echo "$prop" | tr A-Z a-z)
+# build directory and binaries are per property: the three tree checks may run side by side
+B=.build/tree-$lp; mkdir -p $B bin
 go build -o bin/bfpatch ./cmd/bfpatch && go build -o bin/vxmerge ./cmd/vxmerge || { echo "INFRASTRUCTURE ERROR: tool build failed" >&2; exit 2; }
 build_variant() { # fanout
   local f=$1
   if [ "$f" = 16 ]; then
-    go build -tags verif -o bin/tree_bf16 ./props/tree 2> $B/build16.log || return 2
+    go build -tags verif -o bin/tree_${lp}_bf16 ./props/tree 2> $B/build16.log || return 2
     return 0
   fi
   mkdir -p $B/bf$f
   bin/bfpatch $VERIF_REPO/container/tree/btree.go $f $PWD/$B/bf$f/btree.go 2> $B/patch$f.log; rc=$?
   [ $rc = 0 ] || return $rc
   printf '{"Replace":{"%s/container/tree/btree.go":"%s"}}' "$VERIF_REPO" "$PWD/$B/bf$f/btree.go" > $B/bf$f/overlay.json
-  go build -tags verif -overlay $B/bf$f/overlay.json -o bin/tree_bf$f ./props/tree 2> $B/build$f.log || return 2
+  go build -tags verif -overlay $B/bf$f/overlay.json -o bin/tree_${lp}_bf$f ./props/tree 2> $B/build$f.log || return 2
 }
 if [ "${1:-}" = "--replay" ]; then
   f=$(jq -r '.replay.fanout // 16' "$2")
   build_variant $f || { cat $B/build$f.log >&2; echo "INFRASTRUCTURE ERROR: build failed" >&2; exit 2; }
-  exec bin/tree_bf$f $prop --replay "$2"
+  exec bin/tree_${lp}_bf$f $prop --replay "$2"
 fi
 tier="${1:-quick}"
 if [ "$tier" = quick ]; then fanouts="3 4 16"; else fanouts="3 4 5 6 16"; fi
@@ -50,7 +52,7 @@ for f in $fanouts; do
   elif [ "$rc" != 0 ]; then
     cat $B/build$f.log >&2; echo "INFRASTRUCTURE ERROR: build of fan-out $f variant failed" >&2; exit 2
   else
-    VERIF_PART=$part VERIF_PART_NAME=fanout$f bin/tree_bf$f $prop $tier || { echo "INFRASTRUCTURE ERROR: fan-out $f run failed" >&2; exit 2; }
+    VERIF_PART=$part VERIF_PART_NAME=fanout$f bin/tree_${lp}_bf$f $prop $tier || { echo "INFRASTRUCTURE ERROR: fan-out $f run failed" >&2; exit 2; }
   fi
   parts="$parts $part"
 done
